@@ -39,7 +39,9 @@ fn load_known() -> Vec<KnownFinding> {
 
 pub fn tier_runs(prop: &str, tier: &str) -> u64 {
     let quick: u64 = match prop {
-        _ => 6000,
+        "C19" => 20_000,
+        "C03" | "C04" | "C05" | "C09" => 30_000,
+        _ => 40_000,
     };
     let q = std::env::var("DST_RUNS").ok().and_then(|s| s.parse().ok()).unwrap_or(quick);
     if tier == "thorough" {
